@@ -19,12 +19,11 @@ import (
 	"github.com/massnetorg/mass-core/pocec"
 	"massnet.org/mass/api"
 	"massnet.org/mass/config"
-	engine_v2 "massnet.org/mass/poc/engine.v2"
 	"massnet.org/mass/poc/engine"
+	engine_v2 "massnet.org/mass/poc/engine.v2"
 	"massnet.org/mass/poc/wallet/keystore"
 	"verifharness/hx"
 )
-
 
 // canon maps a remote-address string to the model's token, independently of
 // the code under test: host:port split, IP literal (zone dropped), 4-in-6 folded.
@@ -314,31 +313,35 @@ func main() {
 	for i := 0; i < n; i++ {
 		priv, _ := pocec.NewPrivateKey(pocec.S256())
 		pub := priv.PubKey()
-		bl := []int{24, 26, 28, 30, 32, 34, 36, 38, 40}[h.Rng.Intn(9)]
-		rec, err := api.VerifWorkSpaceInfo2Proto(engine.WorkSpaceInfo{SpaceID: "x", PublicKey: pub, Ordinal: int64(i), BitLength: bl})
-		h.Res.OracleEvals++
-		libT, lerr := massutil.GetMassDBBindingTarget(pub, bl)
-		_, addr, aerr := keystore.NewPoCAddress(pub, config.ChainParams)
-		scriptAddr, serr := massutil.NewAddressPubKeyHash(massutil.Hash160(pub.SerializeCompressed()), config.ChainParams)
-		if err != nil || lerr != nil || aerr != nil || serr != nil {
-			h.FailWith("record-error", fmt.Sprintf("workspace conversion failed: %v %v %v %v", err, lerr, aerr, serr), []string{"# pub=" + hex.EncodeToString(pub.SerializeCompressed())})
-			continue
-		}
-		if rec.BindingTarget != libT || rec.Address != addr.EncodeAddress() || rec.Address != scriptAddr.EncodeAddress() ||
-			rec.PublicKey != hex.EncodeToString(pub.SerializeCompressed()) || int(rec.BitLength) != bl {
-			h.FailWith("record-v1", fmt.Sprintf("listed record %+v differs from library target %s / address %s", rec, libT, scriptAddr.EncodeAddress()),
-				[]string{"# pub=" + hex.EncodeToString(pub.SerializeCompressed()) + " bl=" + strconv.Itoa(bl)})
+		for rep := 0; rep < 3; rep++ { // the same key is listed with several sizes
+			bl := []int{24, 26, 28, 30, 32, 34, 36, 38, 40}[h.Rng.Intn(9)]
+			rec, err := api.VerifWorkSpaceInfo2Proto(engine.WorkSpaceInfo{SpaceID: "x", PublicKey: pub, Ordinal: int64(i), BitLength: bl})
+			h.Res.OracleEvals++
+			libT, lerr := massutil.GetMassDBBindingTarget(pub, bl)
+			_, addr, aerr := keystore.NewPoCAddress(pub, config.ChainParams)
+			scriptAddr, serr := massutil.NewAddressPubKeyHash(massutil.Hash160(pub.SerializeCompressed()), config.ChainParams)
+			if err != nil || lerr != nil || aerr != nil || serr != nil {
+				h.FailWith("record-error", fmt.Sprintf("workspace conversion failed: %v %v %v %v", err, lerr, aerr, serr), []string{"# pub=" + hex.EncodeToString(pub.SerializeCompressed())})
+				continue
+			}
+			if rec.BindingTarget != libT || rec.Address != addr.EncodeAddress() || rec.Address != scriptAddr.EncodeAddress() ||
+				rec.PublicKey != hex.EncodeToString(pub.SerializeCompressed()) || int(rec.BitLength) != bl {
+				h.FailWith("record-v1", fmt.Sprintf("listed record %+v differs from library target %s / address %s", rec, libT, scriptAddr.EncodeAddress()),
+					[]string{"# pub=" + hex.EncodeToString(pub.SerializeCompressed()) + " bl=" + strconv.Itoa(bl)})
+			}
 		}
 		// v2
 		var id pocutil.Hash
 		h.Rng.Read(id[:])
-		k := 25 + h.Rng.Intn(20)
-		rec2, err := api.VerifWorkSpaceInfo2ProtoV2(engine_v2.WorkSpaceInfo{SpaceID: "y", PublicKey: chiapos.NewG1ElementGenerator(), PlotID: id, BitLength: k})
-		libT2, lerr2 := massutil.GetChiaPlotBindingTarget(id, k)
-		h.Res.OracleEvals++
-		if err != nil || lerr2 != nil || rec2.BindingTarget != libT2 || int(rec2.K) != k || rec2.PlotId != id.String() {
-			h.FailWith("record-v2", fmt.Sprintf("listed v2 record %+v (err %v) differs from library target %s (err %v)", rec2, err, libT2, lerr2),
-				[]string{"# plotid=" + id.String() + " k=" + strconv.Itoa(k)})
+		for rep := 0; rep < 3; rep++ {
+			k := 25 + h.Rng.Intn(20)
+			rec2, err := api.VerifWorkSpaceInfo2ProtoV2(engine_v2.WorkSpaceInfo{SpaceID: "y", PublicKey: chiapos.NewG1ElementGenerator(), PlotID: id, BitLength: k})
+			libT2, lerr2 := massutil.GetChiaPlotBindingTarget(id, k)
+			h.Res.OracleEvals++
+			if err != nil || lerr2 != nil || rec2.BindingTarget != libT2 || int(rec2.K) != k || rec2.PlotId != id.String() {
+				h.FailWith("record-v2", fmt.Sprintf("listed v2 record %+v (err %v) differs from library target %s (err %v)", rec2, err, libT2, lerr2),
+					[]string{"# plotid=" + id.String() + " k=" + strconv.Itoa(k)})
+			}
 		}
 	}
 	_ = consensus.MaxMass
